@@ -122,6 +122,16 @@ def string_grid(maxlen=3):
                     fails.append({"filter": name, "string": s, "output": out, "problem": "unsafe or not invertible"})
             if F.html_entities_unescape(F.html_entities_escape(s)) != s and "&" not in s:
                 fails.append({"filter": "entity-roundtrip", "string": s})
+            # the error handler on runs: adjacent unencodable characters reach it as one slice (R4: character-wise image)
+            for cs in ("ascii", "latin-1", "cp1251", "shift_jis", "utf-8"):
+                try:
+                    out = s.encode(cs, "htmlentityreplace")
+                    piecewise = b"".join(c.encode(cs, "htmlentityreplace") for c in s)
+                except Exception as e:
+                    fails.append({"filter": "htmlentityreplace", "charset": cs, "string": s, "exception": repr(e)})
+                    continue
+                if out != piecewise:
+                    fails.append({"filter": "htmlentityreplace", "charset": cs, "string": s, "output": repr(out), "characterwise": repr(piecewise)})
             if F.trim("  " + s + "\n") != s.strip():
                 fails.append({"filter": "trim", "string": s})
             if len(fails) > 5:
